@@ -1086,11 +1086,28 @@ def _after_do_steps(flows):
     return out
 
 
+def _subflow_ends_with_do(flows):
+    def ends(stmts):
+        if not stmts:
+            return False
+        last = stmts[-1]
+        if "do" in last:
+            return True
+        if "if" in last:
+            return ends(last["if"][1]) or ends(last["if"][2])
+        return False
+
+    return any(f["sub"] and ends(f["body"]) for f in flows)
+
+
 def nested_do_region(case, obs, k):
     """Prefix k decides a statement that directly follows a nested `do` (a subflow calling a subflow) although
     nothing or something else was expected: the structural region of `nested-subflow-decides-early`."""
     try:
         got = obs["used"][k]
+        if got.get("exc") == "index":
+            # variant: the nested `do` is the LAST statement of the calling subflow's block -> elements[head] IndexError
+            return _subflow_ends_with_do(case["flows"])
         if "ok" not in got:
             return False
         after = _after_do_steps(case["flows"])
